@@ -153,6 +153,13 @@ class InlineTranslator:
         if num_cond == 0 and num_aggs == 1:
             # result of aggregate in rule may only be used in the head variable, called HV
             agg = collect_ast(rule, "BodyAggregate")[0]
+            # a variable that joins the helper's body with its aggregate has to be a head variable: otherwise one group
+            # has several totals, which are separate tuples of the outer aggregate
+            joined = set(chain(*map(lambda x: collect_ast(x, "Variable"), agg.elements))).intersection(
+                chain(*map(lambda x: collect_ast(x, "Variable"), [b for b in rule.body if b.atom != agg]))
+            )
+            if not joined.issubset(collect_ast(hatom, "Variable")):
+                return atom
 
             good = {
                 AggregateFunction.Min: (AggregateFunction.Min,),
